@@ -8,6 +8,56 @@ import os
 VERIF = os.path.dirname(os.path.dirname(os.path.abspath(__file__)))
 
 CHECKS = {
+    'C04': dict(
+        technique='constant folding of the pattern tables, regex-tree shape and character-set algebra per template, extraction of mask_password as an ordered substitution term evaluated with the extracted patterns on generated messages (static extraction + table evaluation)',
+        category='other', design_ref='DESIGN.md section 4, C04',
+        text='Key list vs the 35 reference keys; every template compiled for every key with IGNORECASE; per-template shape (groups, [0-9]* after the key) and value-class set algebra (an excluded non-delimiter character truncates the mask); the extracted substitution pipeline is evaluated on 12k generated messages: every key x 6 spellings x 13 renderings x secrets with metacharacters / non-ASCII / spaces, two secrets per message, other masks, no-key messages, idempotence.',
+        note='Long-message interactions beyond two secrets are not decided; stdlib re evaluates the extracted constant patterns on generated messages only; two known findings (wildcard template, = in --key value) are listed in known_findings.json.'),
+    'C08': dict(
+        technique='decision-table extraction by path-sensitive abstract interpretation of the source (static; nothing from /repo is executed), extracted terms compared with an oracle written from the property on value grids realising every case the code distinguishes; effect log for non-mutation',
+        category='other', design_ref='DESIGN.md section 4, C08',
+        text='mask_dict_password extracted on abstract mappings (dict and non-dict Mapping stand-ins whose mutating API records an effect): every sanitize key alone / upper-cased / embedded / digit-suffixed, near misses, non-string keys, every ordered pair of entry kinds (state carried between iterations), nesting, falsy and truthy non-mappings. Result must be a new dict with the same keys and the stated value table; no effect may touch the argument.',
+        note='mask_password is stubbed (C04 covers it); nesting depth 2; Python semantics as modelled by sa/core/absint.py.'),
+    'C09': dict(
+        technique='decision-table extraction by path-sensitive abstract interpretation of the source (static; nothing from /repo is executed), extracted terms compared with an oracle written from the property on value grids realising every case the code distinguishes; raised objects compared by identity',
+        category='other', design_ref='DESIGN.md section 4, C09',
+        text='Outcome tables of save_and_reraise_exception (constructed and entered through its public API inside a modelled except block), exception_filter (__exit__, __call__, __get__ through two instances), remove_path_on_error (generator body with the yield point modelled as completes/raises) and raise_with_cause over: body completed / raised Exception / raised BaseException, reraise on/off, traceback attached or not, active exception same/other/none, predicate verdicts, remove succeeding/failing.',
+        note='Traceback frame contents are interpreter behaviour and not decided; logging is modelled as an effect on an abstract logger.'),
+    'C10': dict(
+        technique='decision-table extraction by path-sensitive abstract interpretation of the source (static; nothing from /repo is executed), extracted terms compared with an oracle written from the property on value grids realising every case the code distinguishes; regex finite-language enumeration vs table keys',
+        category='other', design_ref='DESIGN.md section 4, C10',
+        text='string_to_bytes extracted with the regex match symbolic and table lookups forked per key (KeyError paths explicit), compared with exact-rational arithmetic on every prefix x unit x unit system x return_int plus malformed texts; prefix group of each unit-system regex must be a subset of the exponent table; exponent table and units.py vs the SI/IEC ladder; QemuImgInfo._extract_bytes extracted and compared with the documented precedence.',
+        note='Float rounding beyond 1e-9 relative is not decided; stdlib re / float evaluate extracted terms on grid constants.'),
+    'C11': dict(
+        technique='decision-table extraction by path-sensitive abstract interpretation of the source (static; nothing from /repo is executed), extracted terms compared with an oracle written from the property on value grids realising every case the code distinguishes with every declared library failure mode forked; DFA equivalence for the MAC pattern',
+        category='other', design_ref='DESIGN.md section 4, C11',
+        text='Each validator is extracted with the netaddr calls symbolic and AddrFormatError / ValueError / TypeError forked at each call, so a handler tuple narrower than what the library raises leaves a raising path; tables evaluated on address grids (octet/prefix/scope/slash boundary cases, NUL, newline) against the stdlib ipaddress / inet_aton parsers; MAC pattern language == six hex pairs by DFA equivalence; port/ICMP range tables at both ends in int and str form.',
+        note='netaddr evaluates the symbolic netaddr calls on grid strings (trusted third party); agreement with ipaddress is checked on the grid, not for all strings.'),
+    'C12': dict(
+        technique='decision-table extraction by path-sensitive abstract interpretation of the source (static; nothing from /repo is executed), extracted terms compared with an oracle written from the property on value grids realising every case the code distinguishes; who-calls check of the wall clock',
+        category='other', design_ref='DESIGN.md section 4, C12',
+        text='Comparison predicates (naive, aware, ISO-string arguments; exact-equality boundary at 1 microsecond; ages beyond 2^34 s), normalize_time, parse_isotime, utcnow / utcnow_ts / advance_time_* under an overridden clock (incl. pre-1970 instants with microseconds), marshal/unmarshal round trip incl. leap seconds, TimeFixture wiring; the wall clock may only be read by utcnow / utcnow_ts / set_time_override.',
+        note='datetime / calendar / iso8601 / zoneinfo evaluate the extracted terms on grid values (trusted); list-valued overrides are outside the property.'),
+    'C14': dict(
+        technique='decision-table extraction by path-sensitive abstract interpretation of the source (static; nothing from /repo is executed), extracted terms compared with an oracle written from the property on value grids realising every case the code distinguishes',
+        category='other', design_ref='DESIGN.md section 4, C14',
+        text='Word tables vs the documented sets; bool_from_string over bool/str/int/float/None subjects x strict x default; is_valid_boolstr agreement; validate_integer / check_string_length / is_int_like over values at and around every bound in int and str form; is_uuid_like over every decoration, 31/33-digit bodies, 0x/+/_/space tricks; generate_uuid result shape; memoising decorators on type-sensitive functions are flagged.',
+        note="int() / uuid.UUID parsing is the stdlib's, evaluated on grid constants only."),
+    'C15': dict(
+        technique='decision-table extraction by path-sensitive abstract interpretation of the source (static; nothing from /repo is executed), extracted terms compared with an oracle written from the property on value grids realising every case the code distinguishes',
+        category='other', design_ref='DESIGN.md section 4, C15',
+        text='EUI-64 forward/inverse vs RFC 4291 App. A computed independently (locally administered MACs, prefixes with host bits, IPv4 networks, malformed input -> ValueError/TypeError only); parse_host_port / escape_ipv6 over the three host families x ports x default ports (0 and None); urlsplit vs urllib.parse.urlsplit on every component incl. allow_fragments=False; params() last/all values on repeated names.',
+        note='netaddr / urllib evaluate the symbolic calls on grid values (trusted).'),
+    'C16': dict(
+        technique='decision-table extraction by path-sensitive abstract interpretation of the source (static; nothing from /repo is executed), extracted terms compared with an oracle written from the property on value grids realising every case the code distinguishes; regex character-set algebra for to_slug',
+        category='other', design_ref='DESIGN.md section 4, C16',
+        text='safe_decode / safe_encode / to_utf8 over the type tag (str, bytes, other) x texts / byte strings x encodings in any case incl. ASCII-incompatible ones x error policies, with UnicodeErrors forked; to_slug extracted as a term and evaluated on compatibility characters for output alphabet and idempotence; strip / hyphenate classes by set algebra.',
+        note="Codec tables are the stdlib's (evaluated on grid constants); default-encoding (incoming=None) paths depend on the environment and are not decided."),
+    'C17': dict(
+        technique='decision-table extraction by path-sensitive abstract interpretation of the source (static; nothing from /repo is executed), extracted terms compared with an oracle written from the property on value grids realising every case the code distinguishes; regex finite language / prefix-shadow rule for the predicate pattern',
+        category='other', design_ref='DESIGN.md section 4, C17',
+        text='convert_version_to_int on symbolic component tuples (length 1..4) and convert_version_to_str on a symbolic integer (loop unrolled) vs base-1000 positional notation incl. the 999/1000 boundaries; suffix regex; _COMP_MAP vs the six operators; predicate regex alternatives == map keys, none shadowed; is_compatible and VersionPredicate vs PEP 440 ordering (packaging) on versions with epochs, pre/post releases and duplicate operators.',
+        note='packaging.version semantics are trusted; loop unrolled to 4 components.'),
     'C18': dict(
         technique='decision-table extraction of every op_methods row and of '
                   'match() by abstract interpretation (static) vs the '
